@@ -241,7 +241,7 @@ package getoptions
 //@   loop "for _, e := range lastOpt.SuggestedValues"@1
 //@     step val.filter {C17}: (hasprefix(ValEntry(k, e), CompWord()) ==> isappend1(completions, old_iter(completions), ValShown(ValEntry(k, e))))
 //@       && (!hasprefix(ValEntry(k, e), CompWord()) ==> identical(completions, old_iter(completions)))
-//@   loop "for _, e := range lastOpt.SuggestedValuesFn(completionMode, strings.SplitN(iterator.Value(), \"=\", 2)[1])"
+//@   loop "for _, e := range lastOpt.SuggestedValuesFn(..."
 //@     step val.fn.filter {C17}: (hasprefix(ValEntry(k, e), CompWord()) ==> isappend1(completions, old_iter(completions), ValShown(ValEntry(k, e))))
 //@       && (!hasprefix(ValEntry(k, e), CompWord()) ==> identical(completions, old_iter(completions)))
 //@   loop "for _, e := range lastOpt.SuggestedValues"@2
